@@ -108,7 +108,7 @@ def run(chk, gate, status):
     cases = []
     for i in range(20 if chk.tier == 'quick' else 200):
         rng = random.Random(chk.seed * 100003 + 33000 + i)
-        cases.append((recipes.RecipeGen(rng, rng.randint(3, 9), allow_d13=False), []))
+        cases.append((recipes.RecipeGen(rng, rng.randint(3, 9), allow_d13=False, p_over=0.5), []))
     rc = recipes.check(chk, 'C03r', cases, recipe_oracle, RULE, lambda prog, rg, out, qres: [])
     cov['recipe_clause'] = {k: rc[k] for k in ('programs', 'disagreements_checked', 'oracle_failures')}
     for k in ('evaluations', 'programs', 'disagreements_checked', 'oracle_failures'):
